@@ -1,6 +1,6 @@
 """Sidecar contracts: the error-path helpers raise only the library's syntax error and never
 dereference a missing token (property C12)."""
-from vf.pyvc.dsl import Contract, Obj, Const, OneOf, Helper, PExt, PObj, Str, Int, Bool
+from vf.pyvc.dsl import Contract, Obj, Const, OneOf, Helper, PExt, PObj, PList, Str, Int, Bool
 
 LEX = 'calmjs.parse.lexers.es5'
 PAR = 'calmjs.parse.parsers.es5'
@@ -38,4 +38,144 @@ def build(lexmod, parmod):
     # utils.format_lex_token
     cs.append(Contract('calmjs.parse.utils:format_lex_token', params={'token': TOK}, ensures=['True'],
                        env={'repr_compat': PExt('repr_compat', lambda e, a, k: e.fresh(Str, 'repr'))}))
+    cs.extend(build_raisers(lexmod, parmod))
     return cs, [], {}
+
+
+def build_raisers(lexmod, parmod):
+    """The functions that construct the error (C12): whatever tokens are missing around the failure they raise the library's
+    syntax error and nothing else (no IndexError from the message table, no AttributeError on a missing neighbour), the lexer is
+    asked for the following token exactly once, and nothing is raised *before* the registered error-token handlers ran.
+      Parser._raise_syntax_error: previous token None / present x offending token inserted-semicolon / real x next token None /
+                                  present (8 cases); the message names every token that exists (format_lex_token once per token)
+      Lexer.t_error:              handlers list of any stock length (the real module's list is read), current token None / present;
+                                  pre-condition from ply: the error token carries the rest of the input, which is not empty
+      Lexer.t_regex_error:        raises the regex flavour of the syntax error
+      Lexer.next:                 StopIteration exactly at the end of input, else the token of Lexer.token() itself"""
+    from vf.pyvc.dsl import ListOf
+    cs = []
+    TOK = Tok()
+    state = {}
+    for prev in ('none', 'token'):
+        for kind in ('auto', 'real'):
+            for nxt in ('none', 'token'):
+                class ParserSelf(object):
+                    def __init__(self, prev=prev, nxt=nxt):
+                        self.prev, self.nxt = prev, nxt
+
+                    def make(self, name):
+                        state.clear()
+                        state.update(token_calls=0, formatted=[])
+                        o = PObj(parmod.Parser, name='parser')
+                        lx = PObj(object, name='lexer')
+                        lx.fields['valid_prev_token'] = TOK.make('prev') if self.prev == 'token' else None
+                        state['prev'] = lx.fields['valid_prev_token']
+                        nt = TOK.make('following') if self.nxt == 'token' else None
+                        state['next'] = nt
+
+                        def token(e, a, k):
+                            state['token_calls'] += 1
+                            return nt
+                        lx.fields['token'] = PExt('Lexer.token', token)
+                        o.fields['lexer'] = lx
+                        return o
+
+                class Offending(object):
+                    def __init__(self, kind=kind):
+                        self.kind = kind
+
+                    def make(self, name):
+                        o = PObj(parmod.AutoLexToken if self.kind == 'auto' else object, name='offending')
+                        o.fields.update(type=Str.fresh('o_type'), value=Str.fresh('o_value'), lineno=Int.fresh('o_lineno'),
+                                        lexpos=Int.fresh('o_lexpos'), colno=Int.fresh('o_colno'))
+                        state['offending'] = o
+                        return o
+
+                def fmt(e, a, k):
+                    state['formatted'].append(a[0])
+                    return e.fresh(Str, 'formatted_token')
+                want = (prev == 'token') + (kind == 'real') + (nxt == 'token')
+                cs.append(Contract(
+                    PAR + ':Parser._raise_syntax_error', params={'self': ParserSelf(), 'token': Offending()},
+                    ensures=['False'], raises={'ECMASyntaxError': 'token_calls() == 1 and formatted_count() == %d and formatted_in_order()' % want},
+                    env={'format_lex_token': PExt('format_lex_token', fmt),
+                         'token_calls': Helper(lambda e: state['token_calls']),
+                         'formatted_count': Helper(lambda e: len(state['formatted'])),
+                         'formatted_in_order': Helper(lambda e, kind=kind: [x for x in state['formatted']] == [
+                             x for x in (state['prev'], state['offending'] if kind == 'real' else None, state['next']) if x is not None])},
+                    notes='previous %s, offending %s, following %s' % (prev, kind, nxt)))
+    # ---- Lexer.t_error
+    nhandlers = len(lexmod.Lexer().error_token_handlers) if hasattr(lexmod.Lexer(), 'error_token_handlers') else 1
+    for cur in ('none', 'token'):
+        for raising in (None,) + tuple(range(nhandlers)):
+            class LexerSelf(object):
+                def __init__(self, cur=cur, raising=raising):
+                    self.cur, self.raising = cur, raising
+
+                def make(self, name):
+                    state.clear()
+                    state.update(handled=[], after_raise=0)
+                    o = PObj(lexmod.Lexer, name='lexer')
+                    hs = []
+                    for i in range(nhandlers):
+                        def h(e, a, k, i=i):
+                            if len(a) == 2 and a[0] is o and a[1] is state.get('errtok') and not k:
+                                state['handled'].append(i)
+                            else:
+                                state['handled'].append('wrong call')
+                            if self.raising == i:
+                                from vf.pyvc.engine import PyRaise, PExc
+                                raise PyRaise(PExc(parmod.ECMASyntaxError, tag='error_token_handler_%d' % i))
+                            return None
+                        hs.append(PExt('error_token_handler_%d' % i, h))
+                    o.fields['error_token_handlers'] = PList(hs)
+                    o.fields['cur_token'] = TOK.make('cur') if self.cur == 'token' else None
+                    o.fields['newline_idx'] = __import__('vf.pyvc.dsl', fromlist=['PList']).PList([Int.fresh('line_start')])
+                    return o
+
+            class ErrTok(object):
+                def make(self, name):
+                    o = TOK.make('errtok')
+                    state['errtok'] = o
+                    return o
+            upto = nhandlers if raising is None else raising + 1
+            cs.append(Contract(
+                LEX + ':Lexer.t_error', params={'self': LexerSelf(), 'token': ErrTok()}, requires=['len(token.value) > 0'],
+                ensures=['False'], raises={'ECMASyntaxError': 'handled() == %r' % (list(range(upto)),)},
+                env={'handled': Helper(lambda e: list(state['handled'])),
+                     'repr_compat': PExt('repr_compat', lambda e, a, k: e.fresh(Str, 'repr')),
+                     'format_lex_token': PExt('format_lex_token', lambda e, a, k: e.fresh(Str, 'formatted')),
+                     '__inline__': ['_get_colno', '_get_colno_lexpos']},
+                notes='current token %s, %s' % (cur, 'no handler raises' if raising is None else 'handler %d raises the syntax error' % raising)))
+    # ---- Lexer.t_regex_error
+    class LexerPlain(object):
+        def make(self, name):
+            o = PObj(lexmod.Lexer, name='lexer')
+            o.fields['newline_idx'] = PList([Int.fresh('line_start')])
+            return o
+    cs.append(Contract(LEX + ':Lexer.t_regex_error', params={'self': LexerPlain(), 'token': TOK}, ensures=['False'],
+                       raises={'ECMARegexSyntaxError': 'True'}, env={'__inline__': ['_get_colno', '_get_colno_lexpos']}))
+    # ---- Lexer.next
+    for end in (True, False):
+        class LexerIter(object):
+            def __init__(self, end=end):
+                self.end = end
+
+            def make(self, name):
+                state.clear()
+                state['calls'] = 0
+                o = PObj(lexmod.Lexer, name='lexer')
+                t = None if self.end else TOK.make('tok')
+                state['tok'] = t
+
+                def token(e, a, k):
+                    state['calls'] += 1
+                    return t if state['calls'] == 1 else TOK.make('second_call')
+                o.fields['token'] = PExt('Lexer.token', token)
+                return o
+        cs.append(Contract(LEX + ':Lexer.next', params={'self': LexerIter()},
+                           ensures=['False'] if end else ['result is the_token()', 'calls() == 1'],
+                           raises={'StopIteration': 'calls() == 1'} if end else {},
+                           env={'the_token': Helper(lambda e: state['tok']), 'calls': Helper(lambda e: state['calls'])},
+                           notes='end of input' if end else 'a token'))
+    return cs
